@@ -52,6 +52,7 @@ type Obligation struct {
 	enc     *enc
 	Result  *SolverResult
 	Query   string
+	regexPattern, regexSpec string
 }
 
 type deferRec struct {
